@@ -12,8 +12,8 @@
    N x N per-pair block re-read in the order nl2.  veq = pointwise equality of rationals.
 
    Statements only; proofs in Proofs/C14xRhs.v, C14xTop.v. *)
-From EoNV Require Import Prelude Samp Graph Aux Vec IC Wrappers Rhs2D VecP EventSIR EventSIRP EventSIRInv EventSIRChar EventSIRTop Discrete DiscreteP
-     C14xDef C14xRhs C14xTop C14xRK C14xOut C14xWrap C14xSim C14xEx.
+From EoNV Require Import Prelude Samp Graph Aux Vec IC Wrappers Rhs2D VecP EventSIR EventSIRP EventSIRInv EventSIRChar EventSIRTop Discrete DiscreteP EventSIS
+     C14xDef C14xRhs C14xTop C14xRK C14xOut C14xWrap C14xSim C14xSis C14xEx.
 From Coq Require Import Permutation.
 
 Section C14x.
@@ -313,6 +313,44 @@ Theorem C14x_fast_nonMarkov_SIR_transmissions_invariant : forall delay delay' du
 Proof. exact (esir_transmissions_relabel_invariant g g' phi Hinj Hnodes Hadj i0 i0' r0 r0' Hi0 Hr0). Qed.
 End C14x_simulators.
 
+(* fast_nonMarkov_SIS with tables dur v k / delays v w k (k = infection ordinal): corollary of C13 nmsis_refines and of the
+   equivariance of the reference agenda semantics, proved here (Proofs/C14xSis.v: the neighbours' events enter the agenda in
+   another order; with all event times distinct the sorted agenda is the same).  Whenever the reference run on the original is
+   inside its domain (second component true: all event times distinct) the simulator returns on the copy -- adjacency lists
+   in ANY order, node list in any order, initial nodes renamed in the same order -- the same rows, transmissions() renamed
+   entry by entry, and the per-node histories mapped through phi. *)
+Theorem C14x_fast_nonMarkov_SIS_relabel_invariant :
+  forall (g g' : graph) (phi : node -> node) dur dur' delays delays' tmax,
+  (forall u v, phi u = phi v -> u = v) ->
+  Permutation (gnodes g') (map phi (gnodes g)) ->
+  (forall u, Permutation (gadj g' (phi u)) (map phi (gadj g u))) ->
+  (forall u k, dur' (phi u) k = dur u k) -> (forall u v k, delays' (phi u) (phi v) k = delays u v k) ->
+  forall tmin full fuel i0 out,
+  xlt tmin tmax = true -> ref_sis g dur delays tmax tmin full fuel i0 = Ok (out, true) ->
+  exists out',
+    nm_run g dur delays tmax tmin full (length i0 + fuel) i0 = Ok out /\
+    nm_run g' dur' delays' tmax tmin full (length i0 + fuel) (map phi i0) = Ok out' /\
+    out_rel phi out out'.
+Proof. exact nmsis_relabel_invariant. Qed.
+Theorem C14x_reference_SIS_equivariant :
+  forall (g g' : graph) (phi : node -> node) dur dur' delays delays' tmax,
+  (forall u v, phi u = phi v -> u = v) ->
+  Permutation (gnodes g') (map phi (gnodes g)) ->
+  (forall u, Permutation (gadj g' (phi u)) (map phi (gadj g u))) ->
+  (forall u k, dur' (phi u) k = dur u k) -> (forall u v k, delays' (phi u) (phi v) k = delays u v k) ->
+  forall tmin full fuel i0 out,
+  ref_sis g dur delays tmax tmin full fuel i0 = Ok (out, true) ->
+  exists out', ref_sis g' dur' delays' tmax tmin full fuel (map phi i0) = Ok (out', true) /\ out_rel phi out out'.
+Proof. exact ref_sis_equivariant. Qed.
+Example C14x_sis_hypotheses_satisfiable :
+  (forall u, Permutation (gadj exG' (ex_phi_g u)) (map ex_phi_g (gadj exG u))) /\
+  ((forall u k, ex_sdur' (ex_phi_g u) k = ex_sdur u k) /\ (forall u v k, ex_sdel' (ex_phi_g u) (ex_phi_g v) k = ex_sdel u v k)) /\
+  match ref_sis exG ex_sdur ex_sdel (Some 3) 0 true 400 [10%N] with
+  | Ok (out, ok) => ok && Nat.ltb 6 (length (so_rows out))
+  | Err _ => false
+  end = true.
+Proof. exact (conj ex_iso_adj_all (conj ex_srules_transported ex_ref_sis_in_domain)). Qed.
+
 (* non-vacuity: the graph pair of C14x_iso_hypotheses_satisfiable with I0 = {10}, R0 = {40}, a contact table that blocks
    30 -> 20 and a delay table in which 10 -> 20 is too slow: both domains hold on both sides, the tables are transported,
    and the epidemics are not trivial (three rows; three infections) *)
@@ -370,5 +408,8 @@ Print Assumptions C14x_discrete_SIR_relabel_invariant.
 Print Assumptions C14x_sim_domains_transported.
 Print Assumptions C14x_fast_nonMarkov_SIR_relabel_invariant.
 Print Assumptions C14x_fast_nonMarkov_SIR_transmissions_invariant.
+Print Assumptions C14x_fast_nonMarkov_SIS_relabel_invariant.
+Print Assumptions C14x_reference_SIS_equivariant.
+Print Assumptions C14x_sis_hypotheses_satisfiable.
 Print Assumptions C14x_sim_hypotheses_satisfiable.
 Print Assumptions C14x_sim_nontrivial.
